@@ -109,6 +109,32 @@ func mainModule() []byte {
 	return m.Build()
 }
 
+// starterModule: start function = mark(5) ; <body> ; mark(7), as start section or as exported _start.
+func starterModule(body, via string) []byte {
+	m := wb.New()
+	i32 := []wasm.ValueType{wb.I32}
+	mark := m.ImportFunc("main", "mark", i32, i32)
+	trap := m.ImportFunc("main", "trap", i32, i32)
+	peer := m.ImportFunc("peer", "peer", i32, i32)
+	h0 := m.ImportFunc("host", "h0", []wasm.ValueType{wb.I32, wb.I32}, i32)
+	b := wb.Cat(wb.I32Const(5), wb.Call(mark), wasm.OpcodeDrop)
+	switch body {
+	case "trap":
+		b = append(b, wb.Cat(wb.I32Const(0), wb.Call(trap), wasm.OpcodeDrop)...)
+	case "host":
+		b = append(b, wb.Cat(wb.I32Const(0), wb.I32Const(0), wb.Call(h0), wasm.OpcodeDrop)...)
+	case "peer2":
+		b = append(b, wb.Cat(wb.I32Const(2), wb.Call(peer), wasm.OpcodeDrop)...)
+	}
+	b = append(b, wb.Cat(wb.I32Const(7), wb.Call(mark), wasm.OpcodeDrop)...)
+	if via == "export" {
+		m.AddFunc(wb.Func{Body: b, Export: "_start"})
+	} else {
+		m.Start(m.AddFunc(wb.Func{Body: b}))
+	}
+	return m.Build()
+}
+
 // ------------------------------------------------------------------------------------ behaviours
 
 type node struct {
@@ -137,15 +163,20 @@ type call struct {
 		Fn     string `json:"fn"`
 		Arg    int    `json:"arg"`
 		Script []node `json:"script"`
+		Body   string `json:"body"` // starter instantiations: body of the start function
+		Via    string `json:"via"`  // "section" | "export"
 	} `json:"top"`
 	Res    outcome        `json:"res"`
 	G      map[string]int `json:"g"`
 	Closed map[string]int `json:"closed"`
+	Sreg   int            `json:"sreg"` // 1: an instance of the starter module is registered after this step
 	Ev     []event        `json:"ev"`
 }
 
 type behaviour struct {
 	Hist []call `json:"hist"`
+	// Same: the history is about re-using ONE function object per export (otherwise the driver alternates)
+	Same bool `json:"same"`
 }
 
 // classify maps (results, error) to the outcome vocabulary of the specification.
@@ -244,6 +275,7 @@ func (l *lst) Abort(ctx context.Context, mod api.Module, def api.FunctionDefinit
 type world struct {
 	rt     wazero.Runtime
 	m, a   api.Module
+	s      api.Module // the starter instance, if one is registered
 	script []node
 	fns    map[string]api.Function
 }
@@ -389,6 +421,52 @@ func replay(id int, b *behaviour, engine, mode string, sameObjects bool) common.
 				return
 			}
 			res.AddFail(fmt.Sprintf("engine=%s;mode=%s;%s%s#%s", engine, mode, prev, desc, what), fmt.Sprintf("%s/%s call %d %s.%s: %s", engine, mode, k+1, c.Top.Inst, desc, msg))
+		}
+		if c.Top.Inst == "S" {
+			// instantiation (the start function runs) / close of the starter module
+			got := outcome{"ok", 0}
+			switch c.Top.Fn {
+			case "inst":
+				w.script = append([]node{}, c.Top.Script...)
+				mod, err := w.rt.InstantiateWithConfig(ctx, starterModule(c.Top.Body, c.Top.Via), wazero.NewModuleConfig().WithName("starter"))
+				switch {
+				case err != nil && strings.Contains(err.Error(), "has already been instantiated"):
+					got = outcome{"dup", 0}
+				case err != nil && strings.Contains(err.Error(), "not instantiated"):
+					got = outcome{"nolink", 0}
+				case err != nil:
+					got = classify(nil, err)
+				default:
+					w.s = mod
+				}
+				desc = fmt.Sprintf("instantiate-starter[%s,%s]%s", c.Top.Body, c.Top.Via, leafs)
+			case "close":
+				if w.s != nil {
+					_ = w.s.Close(ctx)
+				}
+				desc = "close-starter"
+			}
+			if got.K != c.Res.K || ((got.K == "exit" || got.K == "trap") && got.V != c.Res.V) {
+				fail(fmt.Sprintf("result=%s:%d", got.K, got.V), fmt.Sprintf("ended with %+v, the model says %+v", got, c.Res))
+				return res
+			}
+			for name, m := range map[string]api.Module{"M": w.m, "A": w.a} {
+				gv := int(int32(m.ExportedGlobal("g").Get())) - delta[name]
+				if gv != c.G[name] {
+					fail("effects:"+name, fmt.Sprintf("counter of instance %s is %d, the model says %d", name, gv, c.G[name]))
+				}
+				if m.IsClosed() != (c.Closed[name] != 0) {
+					fail("closed:"+name, fmt.Sprintf("instance %s IsClosed()=%v, the model says closed=%v", name, m.IsClosed(), c.Closed[name] != 0))
+				}
+			}
+			if reg := w.rt.Module("starter") != nil; reg != (c.Sreg == 1) {
+				fail("starter-registered", fmt.Sprintf("after the step Runtime.Module(\"starter\") != nil is %v, the model says %v (an instantiation that fails must leave no instance behind)", reg, c.Sreg == 1))
+			}
+			if !res.OK {
+				return res
+			}
+			prev = c.Top.Fn + "-starter;"
+			continue
 		}
 		key := c.Top.Inst + "." + c.Top.Fn
 		f := w.fns[key]
@@ -544,7 +622,7 @@ func runOne(mode string) func(id int, raw json.RawMessage) common.Result {
 		}
 		for _, engine := range []string{"interpreter", "compiler"} {
 			for mi, md := range modes {
-				r := replay(id, &b, engine, md, (id+mi)%2 == 0)
+				r := replay(id, &b, engine, md, b.Same || (id+mi)%2 == 0)
 				for _, f := range r.Fails {
 					res.AddFail(f.Key, f.Msg)
 				}
